@@ -278,3 +278,74 @@ func isPanicBlock(b *ssa.BasicBlock) bool {
 	_, ok := b.Instrs[len(b.Instrs)-1].(*ssa.Panic)
 	return ok
 }
+
+// MayWrite returns the fields a call may store to, transitively through the
+// call graph (closures created by a callee are attributed to it).
+func (p *Prog) MayWrite(c ssa.CallInstruction) []*types.Var {
+	p.initMayWrite()
+	var out []*types.Var
+	seen := map[*types.Var]bool{}
+	add := func(f *ssa.Function) {
+		for v := range p.mayWrite[f] {
+			if !seen[v] {
+				seen[v] = true
+				out = append(out, v)
+			}
+		}
+	}
+	if f := c.Common().StaticCallee(); f != nil {
+		add(f)
+		return out
+	}
+	if n := p.CG.Nodes[c.Parent()]; n != nil {
+		for _, e := range n.Out {
+			if e.Site == c && e.Callee.Func != nil {
+				add(e.Callee.Func)
+			}
+		}
+	}
+	return out
+}
+
+func (p *Prog) initMayWrite() {
+	if p.mayWrite != nil {
+		return
+	}
+	p.mayWrite = map[*ssa.Function]map[*types.Var]bool{}
+	for _, f := range p.Repo {
+		m := map[*types.Var]bool{}
+		for _, g := range WithClosures(f) {
+			allInstrs(g, func(in ssa.Instruction) {
+				if st, ok := in.(*ssa.Store); ok {
+					if fa, ok := st.Addr.(*ssa.FieldAddr); ok {
+						if fv := fieldOfAddr(fa); fv != nil {
+							m[fv] = true
+						}
+					}
+				}
+			})
+		}
+		p.mayWrite[f] = m
+	}
+	for changed := true; changed; {
+		changed = false
+		for _, f := range p.Repo {
+			m := p.mayWrite[f]
+			for _, g := range WithClosures(f) {
+				n := p.CG.Nodes[g]
+				if n == nil {
+					continue
+				}
+				for _, e := range n.Out {
+					cm := p.mayWrite[e.Callee.Func]
+					for v := range cm {
+						if !m[v] {
+							m[v] = true
+							changed = true
+						}
+					}
+				}
+			}
+		}
+	}
+}
